@@ -128,6 +128,11 @@ func valOfPx(v px.Value) string {
 		return val{k: "s", s: v.String()}.String()
 	case px.Boolean:
 		return val{k: "b", b: v.Bool()}.String()
+	case *types.Hash:
+		// a hash where a value is expected: the argument of a named construction that fell through to the positional signature
+		xs := []string{}
+		v.EachPair(func(k, e px.Value) { xs = append(xs, " ("+k.String()+" "+valOfPx(e)+")") })
+		return "(h" + strings.Join(xs, "") + ")"
 	}
 	if v == nil {
 		return "nil"
@@ -233,6 +238,17 @@ type action struct {
 	name  string
 }
 
+func repeats(ns []string) bool {
+	seen := map[string]bool{}
+	for _, n := range ns {
+		if seen[n] {
+			return true
+		}
+		seen[n] = true
+	}
+	return false
+}
+
 func natOf(e sx.Sexp) int {
 	n := e.MustInt()
 	if n < 0 || n > 1000 {
@@ -308,6 +324,11 @@ func defOf(e sx.Sexp) def {
 		}
 		d.hasSer = true
 		d.ser = namesOf(s.Args())
+		if repeats(d.ser) {
+			// outside the universe: a serialization list with a repeated name is accepted by InitFromHash and the
+			// named constructor then indexes out of range (name→position has fewer entries than the attribute list)
+			panic(fmt.Errorf("serialization with a repeated name %s", s))
+		}
 	} else if s.Atom != "-" {
 		panic(fmt.Errorf("bad serialization %s", s))
 	}
@@ -331,6 +352,9 @@ func actionOf(e sx.Sexp) action {
 			}
 			r.names = append(r.names, nameOf(kv.List[0]))
 			r.vals = append(r.vals, valOf(kv.List[1]))
+		}
+		if repeats(r.names) {
+			panic(fmt.Errorf("hash with a repeated key %s", e))
 		}
 		return r
 	case "get":
@@ -422,6 +446,13 @@ func mkSpec(defs []def) *spec {
 		seen := map[string]bool{}
 		for _, a := range all {
 			seen[a.name] = true
+		}
+		own := map[string]bool{}
+		for _, a := range d.attrs {
+			if own[a.name] {
+				panic(fmt.Errorf("definition %d: attribute %s declared twice (a hash literal with a repeated key)", i, a.name))
+			}
+			own[a.name] = true
 		}
 		for _, a := range d.attrs {
 			sa := sattr{attr: a, owner: i}
